@@ -52,20 +52,36 @@ def units_for(ctx, n, gold_ks=()):
 class Family:
     """one experiment under several weight vectors; per-unit interval intersection"""
 
-    def __init__(self, ctx, im, vectors, salt="ramp", labels_variants=False):
+    def __init__(self, ctx, im, vectors, salt="ramp", labels_variants=False, in_place=False):
+        """in_place: the experiment is ramped the way a long-running service does it - one evaluator is recompiled from
+        vector to vector, and what is asked at each stage is a copy taken at that moment (copy / deepcopy alternate)"""
         self.ctx, self.im = ctx, im
         self.vectors = vectors
         self.parts = [bucket.Partition([frac(w) for w in v]) for v in vectors]
         self.evs = []
         self.ok = True
+        live = None
         for j, v in enumerate(vectors):
             labels = [f"{'h' if labels_variants and j % 2 else 'g'}{i}" for i in range(len(v))]
-            c = im.construct(text_for(v, labels, salt, name=f"r{j}" if labels_variants else "r"))
+            text = text_for(v, labels, salt, name=f"r{j}" if labels_variants else "r")
+            if in_place and live is not None:
+                import copy as _copy
+
+                try:
+                    live.recompile(text)
+                    self.evs.append((_copy.copy if j % 2 else _copy.deepcopy)(live))
+                    ctx.count("families/stages-served-by-a-copy-of-the-recompiled-evaluator")
+                    continue
+                except Exception:  # noqa: BLE001
+                    ctx.count("families/in-place-ramp-not-possible")
+            c = im.construct(text)
             if c[0] != "ok":
                 ctx.violation("construct-failed", dict(weights=v, error=c[1:]), mechanism="C10/construct-failed")
                 self.ok = False
                 return
             self.evs.append(c[1])
+            if in_place and live is None:
+                live = im.construct(text)[1]
 
     def check_unit(self, uid, probe, monotone_pairs):
         ctx, im = self.ctx, self.im
@@ -136,7 +152,7 @@ def run(ctx):
                 if p == 0 and q == 0:
                     continue
                 v1, v2 = [str(p), str(100 - p)], [str(q), str(100 - q)]
-                fam = Family(ctx, im, [v1, v2])
+                fam = Family(ctx, im, [v1, v2], in_place=idx % 3 == 0)
                 if not fam.ok:
                     continue
                 us = units_for(ctx, nunits // 4)
@@ -177,7 +193,7 @@ def run(ctx):
                     pts = [0] + cuts + [100]
                     vs.append([str(pts[j + 1] - pts[j]) for j in range(n)])
                 vs = [v for v in vs if any(x != "0" for x in v)]
-                fam, pairs = Family(ctx, im, vs), [(j, j + 1) for j in range(len(vs) - 1)] + [(0, len(vs) - 1)]
+                fam, pairs = Family(ctx, im, vs, in_place=i % 2 == 0), [(j, j + 1) for j in range(len(vs) - 1)] + [(0, len(vs) - 1)]
             elif kind == "scaled":
                 # the same shares written at other magnitudes (x 10^-7, x 10^-4, x 10^5): nobody moves
                 from decimal import Decimal
